@@ -199,7 +199,22 @@ def check(run, prog, tier):
                what="a nested catch() swallows the %s error: pop_context() clears the state before the re-raise, so the enclosing catch sees an ordinary error" % flag if ok1 else "catch() swallows the %s error" % flag)
     # the tests are on the jump branch before anything else can return
     callers = sorted({f.name for f in prog.functions() for _ in f.calls("clear_error_state")})
-    run.ob("C04-d", "clear-callers", set(callers) <= {"pop_context"}, "clear_error_state called from %s" % callers, None, None, None, what="the limit-error state is cleared outside pop_context: %s" % callers)
+    # error_handler may clear the state too, but only where the error is NOT going to a catch frame: do_catch() must still
+    # see the flags after the jump.  Every clearing call in error_handler must be unable to reach the catch-path longjmp.
+    eh_ok = True
+    eh_why = ""
+    ehf = prog.func("error_handler")
+    if "error_handler" in callers and ehf is not None:
+        catch_jumps = [b.id for b, i, n in ehf.calls() if n.get("fn") in ("longjmp", "_longjmp", "siglongjmp") and any(
+            atom_of(c, t)[0] == "==" and "framekind" in show(c) and (mentions(c, "FRAME_CATCH") or "FRAME_CATCH" in show(c)) for c, t, B in cfgq.guards(ehf, b.id))]
+        for b, i, n in ehf.calls("clear_error_state"):
+            if any(cj in cfgq.reach_set(ehf, [b.id]) for cj in catch_jumps):
+                eh_ok = False
+                eh_why = "clear_error_state() at line %s can be followed by the jump into do_catch(): the catch would no longer see a limit error" % n.get("l")
+        if not catch_jumps:
+            eh_ok, eh_why = False, "catch-path longjmp not found in error_handler"
+    run.ob("C04-d", "clear-callers", set(callers) <= {"pop_context", "error_handler"} and eh_ok, "clear_error_state called from %s%s" % (callers, "; in error_handler only on exits that do not lead to a catch frame" if "error_handler" in callers and eh_ok else (" - " + eh_why if eh_why else "")),
+           None, None, None, what="the limit-error state is cleared where do_catch() still needs it: %s %s" % (callers, eh_why))
 
     # ---- C04-e arrays
     nsite = 0
